@@ -57,6 +57,7 @@ class ClassSpec:
     class_cb: Optional[CbDesc] = None
     collection: bool = False
     props: List[Tuple[str, Optional[CbDesc], str]] = field(default_factory=list)  # (name, cb, ret annotation)
+    generic_base: bool = False  # the class lists Generic[<tparams>] after its base (it declares its own parameter order)
 
 
 @dataclass
@@ -134,7 +135,12 @@ class Library:
                             class_cb=maybe_cb(r, "Grouped", 0.3))
         lgroups = ClassSpec("ListGroups", [MethodSpec("flat_size", [], "int")], tparams=["T"], base="Grouped[Iterable[T]]",
                             class_cb=maybe_cb(r, "ListGroups", 0.5))
+        # a generic subclass with MORE type variables than its base, declared in an order of its own: TVec[int, Jet] binds
+        # U = int, T = Jet, so it is a Vec[Jet] (the base's T is the subclass's SECOND parameter)
+        tvec = ClassSpec("TVec", [MethodSpec("tag", [], "U"), MethodSpec("tsize", rand_params(r, 1), "int")], tparams=["U", "T"], base="Vec[T]",
+                         class_cb=maybe_cb(r, "TVec", 0.3), generic_base=True)
         evt = ClassSpec("Evt", [
+            MethodSpec("tvec", rand_params(r, 1), "TVec[int, Jet]"),
             MethodSpec("jets", rand_params(r, 3), "Iterable[Jet]", maybe_cb(r, "Evt.jets", 0.4)),
             MethodSpec("trks", rand_params(r, 2), "Iterable[Trk]"),
             MethodSpec("jvec", rand_params(r, 1), "Vec[Jet]"),
@@ -148,7 +154,7 @@ class Library:
         ], class_cb=maybe_cb(r, "Evt", 0.25))
         coll = ClassSpec("JColl", [MethodSpec("Hardest", rand_params(r, 1), "T"), MethodSpec("NGood", rand_params(r, 2), "int")],
                          tparams=["T"], base="ObjectStream[T]", collection=True)
-        for c in (trk, cal, jet, vec, jvec, grouped, lgroups, evt, coll):
+        for c in (trk, cal, jet, vec, jvec, tvec, grouped, lgroups, evt, coll):
             self.classes[c.name] = c
         self.use_coll = rng.random() < 0.5
         self.funcs["sqrtf"] = FuncSpec("sqrtf", [ParamSpec("x", "float"), ParamSpec("scale", "float", rng.choice([1.0, 2.5]))], "float", maybe_cb(r, "sqrtf", 0.5))
@@ -195,8 +201,8 @@ class Library:
 
     def source(self) -> str:
         out = ["import ast, copy", "from typing import Iterable, Generic, TypeVar", "from func_adl import ObjectStream, func_adl_callable, func_adl_callback, func_adl_parameterized_call, register_func_adl_os_collection",
-               "T = TypeVar('T')", "LOG = []", ""]
-        order = ["Trk", "Cal", "Jet", "Vec", "JVec", "Grouped", "ListGroups", "Evt"] + (["JColl"] if self.use_coll else [])
+               "T = TypeVar('T')", "U = TypeVar('U')", "LOG = []", ""]
+        order = ["Trk", "Cal", "Jet", "Vec", "JVec", "TVec", "Grouped", "ListGroups", "Evt"] + (["JColl"] if self.use_coll else [])
         for name in order:
             c = self.classes[name]
             cbs = [c.class_cb] + [m.cb for m in c.methods]
@@ -211,6 +217,8 @@ class Library:
             if c.collection:
                 out.append("@register_func_adl_os_collection")
             bases = f"({c.base})" if c.base else ""
+            if c.generic_base:
+                bases = f"({c.base}, Generic[{', '.join(c.tparams)}])"
             out.append(f"class {c.name}{bases}:")
             for m in c.methods:
                 if m.cb:
@@ -245,15 +253,28 @@ class Library:
         text = text.strip()
         if text in ("int", "float", "bool", "str"):
             return text
-        if text == "T":
-            return '(tvar "T")'
+        if text in ("T", "U"):
+            return f'(tvar "{text}")'
         if text.startswith("Iterable["):
             return f"(iterable {Library._ty1(text[9:-1])})"
         if text.startswith("ObjectStream["):
             return f'(cls "ObjectStream" ({Library._ty1(text[13:-1])}))' 
         if "[" in text:
             n, a = text.split("[", 1)
-            return f'(cls {q(n)} ({Library._ty1(a[:-1])}))'
+            # top-level commas separate the arguments
+            parts, depth, cur = [], 0, ""
+            for ch in a[:-1]:
+                if ch == "[":
+                    depth += 1
+                elif ch == "]":
+                    depth -= 1
+                if ch == "," and depth == 0:
+                    parts.append(cur)
+                    cur = ""
+                else:
+                    cur += ch
+            parts.append(cur)
+            return f'(cls {q(n)} ({" ".join(Library._ty1(x) for x in parts)}))'
         return f'(cls {q(text)} ())'
 
     @staticmethod
@@ -284,7 +305,7 @@ class Library:
                          '(("First" () (some (tvar "StreamItem")) none) ("Count" () (some int) none)) () none true)')
         cls_parts.append('("ObjectStream" ("T") none (("Select" (("f" none)) (some (cls "ObjectStream" ((tvar "S")))) none) '
                          '("SelectMany" (("func" none)) (some (cls "ObjectStream" ((tvar "S")))) none) ("Where" (("filter" none)) (some (cls "ObjectStream" ((tvar "T")))) none)) () none false)')
-        order = ["Trk", "Cal", "Jet", "Vec", "JVec", "Grouped", "ListGroups", "Evt"] + (["JColl"] if self.use_coll else [])
+        order = ["Trk", "Cal", "Jet", "Vec", "JVec", "TVec", "Grouped", "ListGroups", "Evt"] + (["JColl"] if self.use_coll else [])
         for name in order:
             c = self.classes[name]
             ms = " ".join(f"({q(m.name)} {self._params(m.params)} {self._ty(m.ret)} {self._cb(m.cb)})" for m in c.methods)
@@ -492,6 +513,9 @@ class TypedGen:
                 choices.append(lambda: self.call(self.call(e, lib.classes["Evt"], self.m("Evt", "jvec"), scope, d), lib.classes["Vec"], self.m("Vec", "lead"), scope, d, tbind={"T": "Jet"}))
                 choices.append(lambda: self.call(self.call(e, lib.classes["Evt"], self.m("Evt", "jvec2"), scope, d), lib.classes["JVec"], self.m("JVec", "hardest"), scope, d))
                 choices.append(lambda: self.call(self.call(e, lib.classes["Evt"], self.m("Evt", "jvec2"), scope, d), lib.classes["Vec"], self.m("Vec", "lead"), scope, d, tbind={"T": "Jet"}))
+                # Vec.lead() -> T through TVec[int, Jet]: T is Jet (the subclass's second parameter); and its element type
+                choices.append(lambda: self.call(self.call(e, lib.classes["Evt"], self.m("Evt", "tvec"), scope, d), lib.classes["Vec"], self.m("Vec", "lead"), scope, d, tbind={"T": "Jet"}))
+                choices.append(lambda: self.first(TExpr(**{**self.call(e, lib.classes["Evt"], self.m("Evt", "tvec"), scope, d).__dict__, "ty": "Iterable[Jet]"})))
             if choices:
                 return self.rng.choice(choices)()
         if cls_name == "Cal":
